@@ -6,7 +6,7 @@ Case: {"t": trav case (directed/undirected-family links only, default settings),
 """
 from hypothesis import strategies as st
 
-from eglib import trav
+from eglib import graphs, trav
 from eglib.driver import Violation, require
 from eglib.model import ERROR, FORWARD, ref_bfs, ref_dfs_pre, ref_dfs_stack
 
@@ -47,7 +47,7 @@ def budget(tier):
 def strategy(tier):
     return st.builds(
         lambda t, attr, plan, sought, mode: {"t": t, "attr": attr, "plan": plan, "sought": sought, "mode": mode},
-        trav.cases(classes=4, settings=False),
+        trav.cases(classes=4, settings=False, big=(tier != "quick")),
         st.integers(0, 6),
         st.lists(st.integers(0, 3), min_size=1, max_size=8),
         st.integers(0, 8),
@@ -104,8 +104,11 @@ def _check_on(S, case, first):
     plan = case["plan"]
     mode = case["mode"]
     # ---- attribute plan: selector 3 -> vertex lacks the attribute, else value class 0..2
+    chain = graphs.scale_layout(t["g"])[1]
     for i, v in enumerate(S.vs):
         sel = plan[i % len(plan)]
+        if i in chain:
+            sel = 3         # the vertices of a prepended chain never carry the attribute: matches lie below it
         if an == "k" and sel != 3:
             if mode == 4:
                 v.k = None if sel == 0 else BIG + sel   # stored None is a legitimate value to look for
